@@ -148,6 +148,10 @@ def fmt_row(row):
                                                 ", ".join("%s:=%s" % (k, v) for k, v in sorted(assigns)), result)
 
 
+def run_tables_only(ctx, rep):
+    _tables(ctx, rep)
+
+
 def run(ctx, rep):
     rep.rule("R01.3", "for every WALRecord variant, the complete decision table (ordered comparisons over stored state and record payload -> "
                       "field assignments with provenance, Ok/Err kind) extracted from the inlined StateMachine::apply equals spec/state_tables.json")
@@ -157,6 +161,14 @@ def run(ctx, rep):
     rep.rule("R01.2", "apply's chunk_id / segment arguments are the open chunk's id and last segment, read after the journal push and before rotation")
     rep.rule("R01.4", "truncate maps index to TruncateAfter(purged | log[index-1].log_id | LogIndexNotFound); purge journals only when log_index(upto) >= next_log_index(purged)")
     rep.rule("R01.7", "read() ranges over the index map and yields the entry's own log id with the cached or disk payload (shared with R07.5)")
+    key = _tables(ctx, rep)
+    r01_5(ctx, rep, key)
+    r01_1_2(ctx, rep)
+    r01_4(ctx, rep)
+    r01_7(ctx, rep)
+
+
+def _tables(ctx, rep):
     with open(os.path.join(VERIF, "spec", "state_tables.json")) as f:
         spec = json.load(f)
     key = ctx.body_key(APPLY_KEY)
@@ -187,11 +199,7 @@ def run(ctx, rep):
             sig = sorted(fmt_row(r_) for r_ in extra)[:1] or ["missing:" + sorted(fmt_row(r_) for r_ in missing)[0]]
             rep.violation("R01.3", "%s|%s" % (v, sig[0][:110]), "transition table of %s" % v,
                           "the state transition for %s differs from the sequential specification: %s" % (v, detail[:700]), where=g.where(g.entry))
-
-    r01_5(ctx, rep, key)
-    r01_1_2(ctx, rep)
-    r01_4(ctx, rep)
-    r01_7(ctx, rep)
+    return key
 
 
 # --------------------------------------------------------------------------------------
